@@ -127,5 +127,67 @@ Proof. intros H c Hc. rewrite Forall_forall in H. apply H. apply in_bytes256. ex
 
 (* ---- tactics *)
 Ltac xrw := rewrite ?exec_seq, ?exec_expr, ?exec_if, ?exec_return, ?exec_return_none, ?exec_skip, ?exec_break, ?exec_continue.
-Ltac xcbn := cbn [eval eval_opt bind get_local set_local locals memm nth_error set_nth as_int truth].
+Ltac xcbn := cbn [eval eval_opt bind get_local set_local locals memm nth_error set_nth as_int truth
+                  arith arith1 ity_signed ity_bits andb negb orb Z.leb Z.ltb Z.compare Pos.compare Pos.compare_cont].
 Ltac xstep := repeat (progress (xrw; xcbn)).
+
+(* ---- Z bit operations on images of N *)
+Lemma of_N_land a b : Z.land (Z.of_N a) (Z.of_N b) = Z.of_N (N.land a b).
+Proof. destruct a, b; reflexivity. Qed.
+Lemma of_N_lor a b : Z.lor (Z.of_N a) (Z.of_N b) = Z.of_N (N.lor a b).
+Proof. destruct a, b; reflexivity. Qed.
+Lemma of_N_shiftl a k : Z.shiftl (Z.of_N a) (Z.of_N k) = Z.of_N (N.shiftl a k).
+Proof.
+  rewrite Z.shiftl_mul_pow2 by lia. rewrite N.shiftl_mul_pow2. rewrite N2Z.inj_mul, N2Z.inj_pow. reflexivity.
+Qed.
+Lemma of_N_shiftr a k : Z.shiftr (Z.of_N a) (Z.of_N k) = Z.of_N (N.shiftr a k).
+Proof.
+  rewrite Z.shiftr_div_pow2 by lia. rewrite N.shiftr_div_pow2. rewrite N2Z.inj_div, N2Z.inj_pow. reflexivity.
+Qed.
+
+(* a signed 32-bit result that is in range is returned as it is *)
+Lemma chk_I32 z : - 2147483648 <= z <= 2147483647 -> chk I32 z = Ok z.
+Proof.
+  intro H. unfold chk, in_range, ity_min, ity_max, ity_signed, ity_bits.
+  change (- 2 ^ (32 - 1)) with (-2147483648). change (2 ^ (32 - 1) - 1) with 2147483647.
+  destruct (Z.leb_spec (-2147483648) z); [|lia]. destruct (Z.leb_spec z 2147483647); [|lia]. reflexivity.
+Qed.
+(* x << k in int, for a non-negative x small enough *)
+Lemma shl_I32 (x k : N) : (k < 32)%N -> (x * 2 ^ k <= 2147483647)%N ->
+  arith OShl I32 (Z.of_N x) (Z.of_N k) = Ok (Z.of_N (N.shiftl x k)).
+Proof.
+  intros Hk Hx. unfold arith. cbn [ity_bits ity_signed].
+  destruct (Z.leb_spec 0 (Z.of_N k)); [|lia]. destruct (Z.ltb_spec (Z.of_N k) 32); [|lia]. cbn [andb].
+  destruct (Z.ltb_spec (Z.of_N x) 0); [lia|]. rewrite of_N_shiftl. apply chk_I32.
+  rewrite N.shiftl_mul_pow2. lia.
+Qed.
+
+Lemma truth_b2z x : truth (VInt (b2z x)) = Ok x.
+Proof. destruct x; reflexivity. Qed.
+Lemma skipn_cons_nthb (s : bytes) p : (p < length s)%nat -> skipn p s = nthb s p :: skipn (S p) s.
+Proof.
+  revert s; induction p as [|p IH]; intros [|x s] H; cbn in H; try lia; [reflexivity|].
+  cbn [skipn]. rewrite IH by lia. reflexivity.
+Qed.
+Lemma nthb_end (s : bytes) p : (length s <= p)%nat -> nthb s p = 0%N.
+Proof. intro H. unfold nthb. apply nth_overflow. exact H. Qed.
+Lemma skipn_end {A} (s : list A) p : (length s <= p)%nat -> skipn p s = [].
+Proof. intro H. apply skipn_all2. exact H. Qed.
+Lemma nb2z x : negb (b2z x =? 0) = x.
+Proof. destruct x; reflexivity. Qed.
+Lemma callf_S prog fuel d f args m :
+  callf prog fuel (S d) f args m =
+  match nth_error prog f with
+  | None => Err EShape
+  | Some fn =>
+      if Nat.eqb (length args) (fn_nparams fn) then
+        match exec (callf prog fuel d) fuel (fn_body fn)
+                   (mkst (args ++ repeat VUndef (fn_nlocals fn - fn_nparams fn)) m) with
+        | OReturn v st => Ok (v, memm st)
+        | ONormal st => Ok (VUndef, memm st)
+        | OErr x => Err x
+        | _ => Err EShape
+        end
+      else Err EShape
+  end.
+Proof. reflexivity. Qed.
